@@ -491,7 +491,7 @@ func (g *gen) assignments() {
 					}
 					// where the credential says its type: credentialSubject.type absent / present x the
 					// top-level pair in both orders; three types / no VerifiableCredential: no claim
-					if n%6 == 0 {
+					if n%8 == 0 {
 						vcT := "VerifiableCredential"
 						shapes := []credgen.Spec{
 							{Schema: s, Subject: did, NoSubjectType: true, TopTypes: []string{vcT, s.TypeName}},
@@ -502,11 +502,11 @@ func (g *gen) assignments() {
 						}
 						for k := range shapes {
 							sp2 := shapes[k]
-							if k >= 3 && n%24 != 0 {
+							if k >= 3 && n%32 != 0 {
 								continue
 							}
 							g.ins = append(g.ins, &Input{Kind: kind, Asg: asg, Schema: s, Lookups: lookupsFor(s, fields[:5], false), Cred: &sp2,
-								InModel: n%12 == 0 || g.cfg.Thorough(), ClaimError: k >= 3})
+								InModel: n%16 == 0 || g.cfg.Thorough(), ClaimError: k >= 3})
 						}
 					}
 					// more credentials of the same type: other field values, an absent field
@@ -656,7 +656,7 @@ func (g *gen) specials() {
 				}
 				g.ins = append(g.ins, in)
 				// repetitions (map order)
-				for r := 0; r < 4; r++ {
+				for r := 0; r < 2; r++ {
 					g.ins = append(g.ins, &Input{Kind: "assign", Asg: mainAsg, AsgIRI: in.AsgIRI, IRIError: in.IRIError, IRINoAttr: in.IRINoAttr, NameNoAttr: in.NameNoAttr, Schema: as, Lookups: in.Lookups[:12]})
 				}
 			}
@@ -1246,7 +1246,7 @@ func (g *gen) writeShards() error {
 func Run(cfg *common.Config) (*common.Report, error) {
 	rep := common.NewReport("C17")
 	rep.Correspondence = "Claim.Run.lmismatches / hmismatches / amismatches / fmismatches: get_field_slot_index, parser_parse_claim and the facade (Claim/Model.v) vs json.Parser.GetFieldSlotIndex / ParseClaim and processor.Processor; to_core_claim vs W3CCredential.ToCoreClaim on a credential of each type; and the model's own lookup against the model's own claim on the recorded field encodings"
-	rep.Rule = "ALL 6^4 = 1296 assignments of the four data slots to {none, price, count, name, info.insured, info.since}; per assignment: lookups of the five fields, an unnamed field and the empty string by type name and by type IRI, an unknown type, the processor facade with and without parser, and the claim of a credential of that type (subject id / expiration varied; for every 8th assignment the credential's contexts are ipfs:// objects resolvable only through WithIPFSClient / WithIPFSGateway in the options; for every 6th assignment also credentials without credentialSubject.type whose top-level type pair is written in both orders, and with three types / without VerifiableCredential: no claim); plus reordered and repeated parts, absent designated fields, 32 malformed attributes (a second '=' in a part in every position, a lost '&', empty key, doubled / trailing '='), non-string attribute, no attribute, array-shaped scoped context, sibling types sorting before/after (30 repetitions), 13 bad schema documents, every subset of {validator, parser, loader} x every facade method with stub components; stub components behind the facade (results and the options object passed through, field by field); ParseClaim through the facade vs the parser called directly for every option field and three sets of merklizer options (a loader that alone resolves the contexts, + custom hasher, + safe mode off); for every 9th assignment a claim is first built with a second document loader that serves another schema document (merklized / the assignment read backwards) at the same URL and type. distinct = distinct (schema, lookups, credential) inputs; all are non-trivial (each reaches the attribute parser or one of the documented error points)."
+	rep.Rule = "ALL 6^4 = 1296 assignments of the four data slots to {none, price, count, name, info.insured, info.since}; per assignment: lookups of the five fields, an unnamed field and the empty string by type name and by type IRI, an unknown type, the processor facade with and without parser, and the claim of a credential of that type (subject id / expiration varied; for every 8th assignment the credential's contexts are ipfs:// objects resolvable only through WithIPFSClient / WithIPFSGateway in the options; for every 8th assignment also credentials without credentialSubject.type whose top-level type pair is written in both orders, and with three types / without VerifiableCredential: no claim); plus reordered and repeated parts, absent designated fields, 32 malformed attributes (a second '=' in a part in every position, a lost '&', empty key, doubled / trailing '='), non-string attribute, no attribute, array-shaped scoped context, sibling types sorting before/after (30 repetitions), 13 bad schema documents, every subset of {validator, parser, loader} x every facade method with stub components; stub components behind the facade (results and the options object passed through, field by field); ParseClaim through the facade vs the parser called directly for every option field and three sets of merklizer options (a loader that alone resolves the contexts, + custom hasher, + safe mode off); for every 9th assignment a claim is first built with a second document loader that serves another schema document (merklized / the assignment read backwards) at the same URL and type. distinct = distinct (schema, lookups, credential) inputs; all are non-trivial (each reaches the attribute parser or one of the documented error points)."
 	g := &gen{cfg: cfg, rep: rep, env: credgen.NewEnv(), env2: credgen.NewEnv()}
 	merklize.SetDocumentLoader(g.env.Loader)
 	credgen.InstallGateway(g.env)
